@@ -631,9 +631,13 @@ impl LineBuffer {
                 } else {
                     0
                 };
-                let gidx = self.buf[dest_start..dest_end]
+                // first cluster boundary at or right of the wanted display column (a wide cluster
+                // straddling it is stepped over), measured like `column` itself
+                let wanted = column.saturating_sub(offset);
+                let line = &self.buf[dest_start..dest_end];
+                let gidx = line
                     .grapheme_indices(true)
-                    .nth(column.saturating_sub(offset) as usize);
+                    .find(|&(idx, _)| layout.width(&line[..idx]) >= wanted);
 
                 self.pos = gidx.map_or(dest_end, |(idx, _)| dest_start + idx); // if there's no enough columns
                 true
@@ -710,9 +714,12 @@ impl LineBuffer {
                         .find('\n')
                         .map_or_else(|| self.buf.len(), |v| dest_start + v);
                 }
-                self.pos = self.buf[dest_start..dest_end]
+                // first cluster boundary at or right of the wanted display column (a wide cluster
+                // straddling it is stepped over), measured like `column` itself
+                let line = &self.buf[dest_start..dest_end];
+                self.pos = line
                     .grapheme_indices(true)
-                    .nth(column as usize)
+                    .find(|&(idx, _)| layout.width(&line[..idx]) >= column)
                     .map_or(dest_end, |(idx, _)| dest_start + idx); // if there's no enough columns
                 debug_assert!(self.pos <= self.buf.len());
                 true
